@@ -10,7 +10,8 @@
    by construction: allocation ids are never reused or removed from the heap. That the implementation's iterators really hold
    no borrow/lock across the body is what the correspondence checks (RefCell panics / lock probe / watchdog). *)
 From Gdsl.Model Require Import Spec Callback Mutation.
-From Gdsl.Proofs Require Import MutationProof MutationBudget.
+From Gdsl.Proofs Require Import MutationProof MutationBudget ConcProof.
+From Gdsl.Model Require Import Conc.
 
 (* instrumenting the callback does not change an edge loop *)
 Theorem c20_edge_loop_log_erase :
@@ -96,6 +97,20 @@ Theorem c20_search_never_panics :
        snd (search_path keqb cb vleb k d fuel h c root target cyc) <> RPanic E.
 Proof. exact search_never_panics. Qed.
 Print Assumptions c20_search_never_panics.
+
+(* sync flavours, micro-step model (Conc.v): a thread holds at most one guard and only inside the critical section it is parked at — in particular none while a closure body or loop body runs between two `next()` calls, so an operation called from there never waits for a guard of its own thread (checked on the real code by the lock-point hook at every acquisition) *)
+Theorem c20_no_guard_held_between_critical_sections :
+  forall (K V E : Type) (keqb : K -> K -> bool) (directed : bool) (h : heap K V E)
+         (progs : list (list (call K E))) (c : gconfig K V E),
+       greach keqb directed (ginit keqb directed h progs) c ->
+       (forall tid : nat, length (filter (fun g : guard => g_tid g =? tid) (gc_held c)) <= 1) /\
+       (forall g : guard,
+        In g (gc_held c) ->
+        exists (t : thread K V E) (u : nat) (w : bool) (k : heap K V E -> heap K V E * prog K V E),
+          nth_error (c_threads (gc_cfg c)) (g_tid g) = Some t /\
+          t_status t = TRun /\ t_cur t = Some (Step u w k) /\ g_node g = u /\ g_write g = w).
+Proof. exact one_guard_per_thread. Qed.
+Print Assumptions c20_no_guard_held_between_critical_sections.
 
 (* operations executed from inside a closure keep the mirror invariant and none of them panics (directed) *)
 Theorem c20_script_keeps_invariant_directed :
